@@ -5,10 +5,15 @@
 * the TypeKind members a *named* type can have (environment), GraphQLParser.parse_order (runtime),
   the keys of `support_graphql_types` and of the kind → parse-method map (ast of parse_raw)
 * the keyword arguments of `_typename_field` (ast) and the type names `_resolve_types` skips (ast)
+* model/template/Union.jinja2 as an abstract template (jinja2's own parser): the `{% if %}` tree with its
+  conditions and every `{{ … }}` site with the Python lexical state it sits in (code / string / comment),
+  the identifiers its literal text uses in code, DataTypeUnion.DEFAULT_IMPORTS, and the template
+  variables `parse_union` sets from parser options (ast)
 """
 from __future__ import annotations
 
 import ast
+import re
 
 from ..common import REPO
 from ..guard import table
@@ -102,6 +107,231 @@ def skipped_names() -> list[str]:
     return sorted(out)
 
 
+# ------------------------------------------------------------------ Union.jinja2 → Model.GraphqlOrder.UTpl
+TEMPLATE_DIR = REPO / "src" / "datamodel_code_generator" / "model" / "template"
+
+
+def union_template_path():
+    """the template the union model renders with (GraphQLParser's default data_model_union_type)"""
+    from datamodel_code_generator.model.union import DataTypeUnion
+
+    return TEMPLATE_DIR / DataTypeUnion.TEMPLATE_FILE_PATH
+
+
+class _Lexer:
+    """Python lexical state along the literal text of a template path: code | sq | dq | comment |
+    maybe (code or comment: an optional block ended inside a comment) | unknown."""
+
+    def __init__(self) -> None:
+        self.code_text: list[str] = []
+
+    def feed(self, state: str, text: str) -> str:
+        i = 0
+        while i < len(text):
+            c = text[i]
+            if state == "unknown":
+                return state
+            if state in ("comment", "maybe"):
+                if c == "\n":
+                    state = "code"
+                elif state == "maybe" and c in "'\"#":
+                    return "unknown"
+                elif state == "maybe":
+                    self.code_text.append(c)
+            elif state == "code":
+                if c in "'\"":
+                    if text[i : i + 3] == c * 3:
+                        return "unknown"  # a triple-quoted literal: not something an alias statement has
+                    state = "sq" if c == "'" else "dq"
+                elif c == "#":
+                    state = "comment"
+                else:
+                    self.code_text.append(c)
+            else:  # sq / dq
+                if c == "\\":
+                    i += 1
+                elif c == "\n" or (c == "'" and state == "sq") or (c == '"' and state == "dq"):
+                    state = "code"
+            i += 1
+        self.code_text.append(" ")
+        return state
+
+
+def _lex_name(state: str) -> str:
+    return {"sq": ".str", "dq": ".str", "comment": ".comment"}.get(state, ".code")  # maybe / unknown: as if code
+
+
+def _join(a: str, b: str) -> str:
+    if a == b:
+        return a
+    if {a, b} <= {"code", "comment", "maybe"}:
+        return "maybe"
+    return "unknown"
+
+
+def _cond(n) -> str:
+    from jinja2 import nodes
+
+    def length_of_fields(e) -> bool:
+        return isinstance(e, nodes.Filter) and e.name in ("length", "count") and isinstance(e.node, nodes.Name) and e.node.name == "fields" and not e.args
+
+    if isinstance(n, nodes.Const) and n.value is True:
+        return ".tt"
+    if isinstance(n, nodes.Name):
+        return f"(.var {lean_string(n.name)})"
+    if isinstance(n, nodes.Not):
+        return f"(.not {_cond(n.node)})"
+    if isinstance(n, nodes.And):
+        return f"(.and {_cond(n.left)} {_cond(n.right)})"
+    if isinstance(n, nodes.Or):
+        return f"(.or {_cond(n.left)} {_cond(n.right)})"
+    if isinstance(n, nodes.Compare) and len(n.ops) == 1 and length_of_fields(n.expr):
+        op, rhs = n.ops[0].op, n.ops[0].expr
+        if isinstance(rhs, nodes.Const) and isinstance(rhs.value, int) and not isinstance(rhs.value, bool) and rhs.value >= 0:
+            k = rhs.value
+            if op == "gt":
+                return f"(.lenGt {k})"
+            if op == "gteq" and k >= 1:
+                return f"(.lenGt {k - 1})"
+            if op == "lteq":
+                return f"(.not (.lenGt {k}))"
+            if op == "lt" and k >= 1:
+                return f"(.not (.lenGt {k - 1}))"
+            if op == "eq" and k >= 1:
+                return f"(.and (.lenGt {k - 1}) (.not (.lenGt {k})))"
+            if op == "ne" and k >= 1:
+                return f"(.not (.and (.lenGt {k - 1}) (.not (.lenGt {k}))))"
+    return f"(.unknown {lean_string(_src(n))})"
+
+
+def _src(n) -> str:
+    from jinja2 import nodes
+
+    if isinstance(n, nodes.Name):
+        return n.name
+    if isinstance(n, nodes.Const):
+        return repr(n.value)
+    if isinstance(n, nodes.Getattr):
+        return f"{_src(n.node)}.{n.attr}"
+    if isinstance(n, nodes.Getitem):
+        return f"{_src(n.node)}[{_src(n.arg)}]"
+    if isinstance(n, nodes.Filter):
+        args = [_src(a) for a in n.args] + [f"{k.key}={_src(k.value)}" for k in n.kwargs]
+        return f"{_src(n.node) if n.node is not None else ''}|{n.name}" + (f"({','.join(args)})" if args else "")
+    return type(n).__name__ + "(" + ",".join(_src(c) for c in n.iter_child_nodes()) + ")"
+
+
+def _site(n, loop_var: str | None) -> str:
+    """which of the four kinds of site an output expression is"""
+    from jinja2 import nodes
+
+    if isinstance(n, nodes.Name) and n.name == "class_name":
+        return ".className"
+    if isinstance(n, nodes.Getattr) and n.attr == "name":
+        inner = n.node
+        if isinstance(inner, nodes.Name) and loop_var is not None and inner.name == loop_var:
+            return ".eachMember"
+        if (isinstance(inner, nodes.Getitem) and isinstance(inner.node, nodes.Name) and inner.node.name == "fields"
+                and isinstance(inner.arg, nodes.Const) and inner.arg.value == 0):
+            return ".firstMember"
+    if isinstance(n, nodes.Filter) and n.name == "join" and isinstance(n.node, nodes.Filter) and n.node.name == "map":
+        m = n.node
+        attr = [k for k in m.kwargs if k.key == "attribute"]
+        sep = n.args[0].value if len(n.args) == 1 and isinstance(n.args[0], nodes.Const) else None
+        if (isinstance(m.node, nodes.Name) and m.node.name == "fields" and not m.args and len(attr) == 1
+                and isinstance(attr[0].value, nodes.Const) and attr[0].value.value == "name"
+                and isinstance(sep, str) and not re.search(r"['\"#\\\n\w]", sep)):
+            return ".eachMember"
+    return f"(.other {lean_string(_src(n))})"
+
+
+def _walk(body, state: str, lx: _Lexer, loop_var: str | None) -> tuple[list, str]:
+    """items: ('site', kind, lex) | ('ite', cond, then_items, else_items)"""
+    from jinja2 import nodes
+
+    items: list = []
+    for n in body:
+        if isinstance(n, nodes.Output):
+            for part in n.nodes:
+                if isinstance(part, nodes.TemplateData):
+                    state = lx.feed(state, part.data)
+                else:
+                    items.append(("site", _site(part, loop_var), _lex_name(state)))
+        elif isinstance(n, nodes.If):
+            t_items, st_t = _walk(n.body, state, lx, loop_var)
+            if n.elif_:
+                nested = nodes.If(n.elif_[0].test, n.elif_[0].body, n.elif_[1:], n.else_)
+                e_items, st_e = _walk([nested], state, lx, loop_var)
+            else:
+                e_items, st_e = _walk(n.else_, state, lx, loop_var)
+            items.append(("ite", _cond(n.test), t_items, e_items))
+            state = _join(st_t, st_e)
+        elif isinstance(n, nodes.For):
+            over_fields = isinstance(n.iter, nodes.Name) and n.iter.name == "fields" and isinstance(n.target, nodes.Name) and not n.else_ and n.test is None
+            b_items, st_b = _walk(n.body, state, lx, n.target.name if over_fields else loop_var)
+            if not over_fields:
+                # a loop over something else runs any number of times: its sites are sites of unknown expressions
+                b_items = [("site", f"(.other {lean_string('in a loop over ' + _src(n.iter))})", it[2]) if it[0] == "site" and it[1] != ".className" else it for it in b_items]
+            items += b_items
+            state = _join(state, st_b)  # zero iterations, or at least one
+            if st_b != state and over_fields:
+                # the body does not leave the lexical state as it found it: the second member sits elsewhere
+                items.append(("site", f"(.other {lean_string('loop body is not state-neutral')})", ".code"))
+        else:
+            items.append(("site", f"(.other {lean_string(type(n).__name__)})", _lex_name(state)))
+    return items, state
+
+
+def _tpl(items: list) -> str:
+    out = ".done"
+    for it in reversed(items):
+        if it[0] == "site":
+            out = f"(.site {it[1]} {it[2]} {out})"
+        else:
+            out = f"(.ite {it[1]} {_tpl(it[2])} {_tpl(it[3])} {out})"
+    return out
+
+
+def union_template() -> tuple[str, list[str]]:
+    import jinja2
+
+    lx = _Lexer()
+    tree = jinja2.Environment().parse(union_template_path().read_text())  # noqa: S701
+    items, _ = _walk(tree.body, "code", lx, None)
+    names = sorted(set(re.findall(r"[A-Za-z_][A-Za-z_0-9]*", "".join(lx.code_text))))
+    return _tpl(items), names
+
+
+def union_default_imports() -> list[str]:
+    from datamodel_code_generator.model.union import DataTypeUnion
+
+    return sorted((i.alias or i.import_) for i in DataTypeUnion.DEFAULT_IMPORTS)
+
+
+def union_template_vars() -> list[tuple[str, str]]:
+    """`self.extra_template_data[<name>][KEY] = self.<option>` (also `.update({KEY: self.<option>})`) in parse_union"""
+    tree = ast.parse(SRC.read_text())
+    fn = _func(tree, "parse_union")
+    out: list[tuple[str, str]] = []
+
+    def is_etd(e: ast.AST) -> bool:
+        return isinstance(e, ast.Subscript) and ast.unparse(e.value) == "self.extra_template_data"
+
+    for n in ast.walk(fn):
+        if isinstance(n, ast.Assign):
+            for t in n.targets:
+                if isinstance(t, ast.Subscript) and is_etd(t.value) and isinstance(t.slice, ast.Constant):
+                    out.append((str(t.slice.value), ast.unparse(n.value).removeprefix("self.")))
+        if isinstance(n, ast.Call) and isinstance(n.func, ast.Attribute) and n.func.attr in ("update", "setdefault") and is_etd(n.func.value):
+            if n.func.attr == "setdefault" and len(n.args) == 2 and isinstance(n.args[0], ast.Constant):
+                out.append((str(n.args[0].value), ast.unparse(n.args[1]).removeprefix("self.")))
+            for a in n.args:
+                if isinstance(a, ast.Dict):
+                    out += [(str(k.value), ast.unparse(v).removeprefix("self.")) for k, v in zip(a.keys, a.values) if isinstance(k, ast.Constant)]
+            out += [(k.arg, ast.unparse(k.value).removeprefix("self.")) for k in n.keywords if k.arg]
+    return sorted(set(out))
+
+
 def _strs(xs) -> str:
     return "[" + ", ".join(lean_string(x) for x in xs) + "]"
 
@@ -113,7 +343,7 @@ def _pairs(xs) -> str:
 def generate() -> str:
     table_, dflt = table(scalar_table, ({}, "?"))
     support, mapper = table(parse_raw_tables, ([], []))
-    out = ["namespace Dcg.Gen.GraphqlTables", ""]
+    out = ["import Dcg.Model.GraphqlOrder", "namespace Dcg.Gen.GraphqlTables", "open Dcg.Model.GraphqlOrder", ""]
     out.append("/-- model/scalar.py DEFAULT_GRAPHQL_SCALAR_TYPES (GraphQL scalar name, Python type) -/")
     out.append(f"def defaultScalarTypes : List (String × String) :=\n  {_pairs(table_.items())}\n")
     out.append("/-- model/scalar.py DEFAULT_GRAPHQL_SCALAR_TYPE: every scalar not in the table -/")
@@ -132,5 +362,15 @@ def generate() -> str:
     out.append(f"def typenameField : List (String × String) :=\n  {_pairs(table(typename_field, {}).items())}\n")
     out.append("/-- type names _resolve_types skips -/")
     out.append(f"def skippedTypeNames : List String := {_strs(table(skipped_names, []))}\n")
+    # fallback: a template the model knows nothing about (an unknown expression in code): the side conditions fail
+    tpl, lit_names = table(union_template, ('(.site (.other "template not understood") .code .done)', ["?"]))
+    out.append("/-- model/template/Union.jinja2: the `if` tree and every `{{ … }}` site with its Python lexical state -/")
+    out.append(f"def unionTemplate : UTpl :=\n  {tpl}\n")
+    out.append("/-- identifiers in the literal text of Union.jinja2 that are in code -/")
+    out.append(f"def unionLiteralNames : List String := {_strs(lit_names)}\n")
+    out.append("/-- the names DataTypeUnion.DEFAULT_IMPORTS binds -/")
+    out.append(f"def unionDefaultImports : List String := {_strs(table(union_default_imports, []))}\n")
+    out.append("/-- template variables parse_union sets in extra_template_data[<union name>] (variable, parser option) -/")
+    out.append(f"def unionTemplateVars : List (String × String) := {_pairs(table(union_template_vars, [('?', '?')]))}\n")
     out.append("end Dcg.Gen.GraphqlTables")
     return "\n".join(out) + "\n"
